@@ -27,7 +27,7 @@ pub fn gen_tail(t: &mut Tape) -> Vec<Tok> {
     let tree_end = Tok::Tree { lead: true, trail: false };
     let tree_mid = Tok::Tree { lead: true, trail: true };
     let zs = Tok::Rep { body: vec![Tok::Zom { lazy: false }, Tok::Sep], lo: 0, hi: None, spell: 1 };
-    match t.below(18) {
+    match t.below(20) {
         0 => vec![tree_end],
         1 => vec![Tok::Sep, zs],
         2 => vec![Tok::Sep, Tok::Rep { body: vec![Tok::One, Tok::Sep], lo: 1, hi: None, spell: 0 }],
@@ -59,11 +59,54 @@ pub fn gen_tail(t: &mut Tape) -> Vec<Tok> {
         14 => vec![tree_mid, Tok::Zom { lazy: false }],
         15 => vec![tree_mid, Tok::Alt(vec![vec![lit("a"), tree_end.clone()], vec![lit("b")]])],
         16 => vec![Tok::Sep, Tok::Alt(vec![vec![Tok::Zom { lazy: false }], vec![lit("a"), tree_end.clone()]])],
+        17 => vec![
+            Tok::Sep,
+            Tok::Rep {
+                body: vec![
+                    lit("a"),
+                    Tok::Sep,
+                    Tok::Alt(vec![vec![Tok::Zom { lazy: false }], vec![Tok::Zom { lazy: false }, Tok::Sep, Tok::Zom { lazy: false }]]),
+                ],
+                lo: t.below(2),
+                hi: None,
+                spell: 0,
+            },
+        ],
+        18 => vec![
+            Tok::Sep,
+            Tok::Rep {
+                body: vec![
+                    lit("a"),
+                    Tok::Sep,
+                    Tok::Rep { body: vec![Tok::Zom { lazy: false }, Tok::Sep], lo: t.below(2), hi: Some(1 + t.below(2)), spell: 0 },
+                    Tok::Zom { lazy: false },
+                ],
+                lo: 0,
+                hi: None,
+                spell: 0,
+            },
+        ],
         _ => vec![tree_mid, Tok::Rep { body: vec![Tok::Zom { lazy: false }, Tok::Sep], lo: 1, hi: Some(2), spell: 0 }, Tok::Zom{lazy:false}],
     }
 }
 
+/// random nested expressions over the alphabet that matters for exhaustiveness
+pub fn gen_exh_expr(t: &mut Tape) -> Expr {
+    let mut cfg = GenCfg::default();
+    cfg.max_toks = 6;
+    cfg.max_depth = 3;
+    cfg.noise_flags = 0;
+    cfg.ci = 0;
+    cfg.allow_rooted = true;
+    // Lit Sep One Zom Tree Class Alt Rep
+    cfg.weights = [16, 24, 5, 24, 9, 2, 10, 14];
+    gen_expr(t, &cfg)
+}
+
 pub fn gen_tail_expr(t: &mut Tape) -> Expr {
+    if t.chance(110) {
+        return gen_exh_expr(t);
+    }
     let mut cfg = GenCfg::default();
     cfg.max_toks = 3;
     cfg.max_depth = 2;
@@ -324,10 +367,8 @@ pub fn trailsep_trigger(e: &Expr) -> bool {
         }
     }
     let es = strip_flags(e);
-    match es.last() {
-        Some(Tok::Rep { body, .. }) => ends(body),
-        _ => false,
-    }
+    // every unfolding of the whole expression ends in a separator (`<*/>`, `a/<*/:1,>`, `**/*/`)
+    ends(&es)
 }
 
 pub fn has_optional_rep(e: &Expr) -> bool {
